@@ -106,6 +106,38 @@ func checkC15(c *Ctx) {
 		found, ok, _ := loopBodyMustPass(tsc, func(in ssa.Instruction) bool { cc := callCommon(in); return cc != nil && predStatic(esc0)(cc) })
 		c.decide("PASS-extract-every-version", "traverseStateChanges diffs every version", l.pos(tsc.Pos()), found && ok, "every iteration of the version loop calls extractStateChanges", "the version loop can deliver a change set without diffing the two roots (e.g. a shortcut for reference roots): removals that collapse the root are lost")
 	}
+	if tsc != nil && esc0 != nil {
+		// the (previous version, previous root) pair handed to the diff is always a version together with ITS root:
+		// the root looked up for startVersion-1, or the root of the iteration before
+		for _, in := range callsIn(tsc, predStatic(esc0)) {
+			cc := callCommon(in)
+			getRoot := l.Func("", "*nodeDB.GetRoot")
+			isGetRoot := func(v ssa.Value) bool { return getRoot != nil && isResultOf(predStatic(getRoot), 0)(v) }
+			cur := stripTrivial(cc.Args[3])
+			okRoot := false
+			root := "not a phi"
+			if phi, isPhi := stripTrivial(cc.Args[2]).(*ssa.Phi); isPhi {
+				nEntry, nLoop, nOther := 0, 0, 0
+				for _, e := range phi.Edges {
+					e = stripTrivial(e)
+					switch {
+					case e == ssa.Value(phi):
+					case e == cur:
+						nLoop++
+					case isGetRoot(e):
+						nEntry++
+					default:
+						nOther++
+					}
+				}
+				okRoot = nEntry == 1 && nLoop >= 1 && nOther == 0 && isGetRoot(cur)
+				root = fmt.Sprintf("phi with %d entry lookups, %d carried roots, %d other values (nil / unrelated)", nEntry, nLoop, nOther)
+			}
+			ver := "-"
+			c.decide("PASS-extract-every-version", "traverseStateChanges diffs against the root of the predecessor", l.ipos(in), okRoot,
+				"previous root = GetRoot(start-1) on entry, the current root afterwards", "the previous root handed to the diff is `"+root+"` (previous version `"+ver+"`): for some start of the range the predecessor's root is not loaded, and the first change set is computed against an empty tree")
+		}
+	}
 	checkDiffMergeTable(c)
 	ea := newErrAnalysis(c, l)
 	esc := l.Func("", "*nodeDB.extractStateChanges")
